@@ -15,7 +15,7 @@ CHECK = {
 META = {
     "text": "Kernel-checked theorems over a model of Connector.Pin/Unpin/PinLsCid talking to a daemon with a pin table and one scripted behaviour per request "
             "(21 wire forms in 11 classes): every output the model admits satisfies every clause of the property for all pins, prior tables and scripts, "
-            "except for the two recorded findings (error object inside a 200 progress stream; stalled pin/update), whose negations are proved with witnesses. "
+            "except for the one recorded finding (a stalled pin/update is never given up), whose negation is proved with a witness. "
             "Tied to today's code by running the real connector against a scripted fake HTTP daemon on loopback and comparing result class, request trace and "
             "final pin table with the model, and by evaluating the Lean property checker on the real outputs.",
     "note": "Trusted: Lean kernel, the hand-written model/spec, the fake daemon and its notion of an honest answer, Go net/http. Timing cases use a 60 ms PinTimeout "
